@@ -450,7 +450,7 @@ def judge_lits(ctx, cfg, inputs, aux=None):
                    'finite-literal-rejected' if e.startswith('ok') else 'out-of-range-literal-accepted' if a.startswith('ok') else 'wrong-error'
             pp = lit_parts(d)
             if what == 'not-correctly-rounded-f32' and pp[0] and pp[3] and 2 ** 63 < pp[1] < 2 ** 64:
-                # de.rs parse_number: -(u64 as f64), then cast to f32 by the visitor: two roundings (finding C07-F1)
+                # de.rs parse_number: -(u64 as f64) then cast to f32 by the visitor would be two roundings (finding F17, fixed in /repo: negated_u64_as_float)
                 what = 'not-correctly-rounded-f32-negative-integer-beyond-i64'
             v.append({'what': what, 'cfg': cfg, 'input': hx(d), 'literal': d[:200].decode('latin-1'),
                       'expected': 'correctly rounded %s (exact big-integer oracle): %s' % (target, e), 'actual': a,
